@@ -390,6 +390,30 @@ def _reindex_rule(idx: Index, res: Result) -> None:
               "on leaving arrayed_term self.index is %s, not the saved previous index" % sorted(out), key="REINDEX/Operator.arrayed_term/restore")
 
 
+def index_owner_rule(idx: Index, res: Result, rule: str) -> int:
+    """OWNER: the index of an operator object is written by the operator classes themselves only - its constructor, clone_with_index
+    (which hands the index on to the operands it clones) and arrayed_term (which puts the previous index back).  Re-pointing `.index` of
+    an existing clone from outside leaves every *nested* operator at the index it was cloned for: (A + B) * C evaluated for row 2 reads
+    A and B at row 0.  Returns the number of stores seen."""
+    n = 0
+    ALLOWED = {"__init__", "clone_with_index", "arrayed_term"}
+    for rel in sorted(idx.modules):
+        if not rel.startswith("BPTK_Py/sddsl/"):
+            continue
+        for fi in idx.modules[rel].functions.values():
+            for a in walk_no_nested(fi.node):
+                tgts = a.targets if isinstance(a, ast.Assign) else ([a.target] if isinstance(a, (ast.AugAssign, ast.AnnAssign)) else [])
+                for t in tgts:
+                    if isinstance(t, ast.Attribute) and t.attr == "index":
+                        n += 1
+                        inside = rel == OPS and fi.node.name in ALLOWED
+                        res.check(rule, "%s: %s written by the operator classes only" % (fi.qual, src(t)), inside, fi.loc(a), fi.qual, norm_stmt(a)[:80],
+                                  "%s re-points %s of an operator that exists already: clone_with_index also clones the operands for the index, a "
+                                  "bare store leaves every nested operator at the index it was cloned for, so all but the first member of a row are "
+                                  "computed from the first member's operands" % (fi.qual, src(t)), key="%s/%s/%s-store" % (rule, fi.qual, src(t)))
+    return n
+
+
 def check_c10(idx: Index, tier: str, res: Result) -> None:
     res.explanation = ("Static decision of the arrayed-equation generator: (a) hole-safety, time pass-through and operator identity "
                        "of every arrayed return path of + - * /, scalar multiply, dot and the aggregates; both operands of an "
@@ -408,6 +432,8 @@ def check_c10(idx: Index, tier: str, res: Result) -> None:
     arr_renderers = [r for r in renderers if r.cls in ARRAY_CLASSES]
     res.floor("arrayed return paths", len(arr_renderers), 50)
     _reindex_rule(idx, res)
+    res.floor("stores to an operator's index", index_owner_rule(idx, res, "OWNER"), 8)
+    _rank_rule(idx, res)
     _r1_table(res, arr_renderers, ARRAY_CLASSES, inners, tier, "R1", "C10", guards)
     _r2(idx, res, arr_renderers, floor=60)
     operator_identity(res, arr_renderers, ARRAY_CLASSES)
@@ -702,7 +728,6 @@ def check_c10(idx: Index, tier: str, res: Result) -> None:
         ok = t.startswith("sorted([") and "reverse=True" in t and "-1" in t
         res.check("AGG", "rank = sorted descending [rank-1]", ok, r.fi.loc(), r.fi.qual, t[:120], "the rank template is %s" % t[:100],
                   key="AGG/ArrayRankOperator/shape")
-    _rank_rule(idx, res)
     sz = idx.func(OPS, "ArraySizeOperator.term")
     ok = any(call_name(c) == "vector_size" for c in iter_calls(sz.node))
     res.check("AGG", "size = number of sub-elements", ok, sz.loc(), sz.qual, "vector_size()", "ArraySizeOperator does not report vector_size()",
